@@ -11,7 +11,7 @@ pub fn scenarios(tier: &str) -> Vec<Scenario> {
     let alpha = vec![
         m_block("B(set0=1,wide=5)", vec![s_set(0, 0, 1), s_setwide(1, 5)]),
         // (12 transactions: two-digit indexes in the (block, index) range scans)
-        m_block("B(set0=2,set1=1,set2=3,...x12)", (0..12u8).map(|i| match i { 0 => s_set(0, 0, 2), 1 => s_set(1, 1, 1), 2 => s_set(0, 2, 3), 7 => s_setwide(2, 9), 8 => TxSpec::Call { pk: 1, tgt: Tgt::Addr(format!("0x{}", "00".repeat(20))), data: vec![1, 2, 3], len: DEFAULT_LEN }, _ => s_set(i % 3, 3 + i % 2, i) }).collect()),
+        m_block("B(set0=2,set1=1,set2=3,...x12)", (0..12u8).map(|i| match i { 0 => s_set(0, 0, 2), 1 => s_set(1, 1, 1), 2 => s_set(0, 2, 3), 7 => s_setwide(2, 9), 9 => s_by_insc(2, crate::asm::s_set(3, 5, 1, [5, 0, 0, 0])), 10 => TxSpec::CallByInsc { pk: 2, insc: "no-such-inscription".into(), data: vec![6, 0], len: DEFAULT_LEN }, 8 => TxSpec::Call { pk: 1, tgt: Tgt::Addr(format!("0x{}", "00".repeat(20))), data: vec![1, 2, 3], len: DEFAULT_LEN }, _ => s_set(i % 3, 3 + i % 2, i) }).collect()),
         m_block("B(T(s0,n1))", vec![park.clone()]),
         m_block("B(T(s0,n0))", vec![exec0]),
         m_mine(1),
